@@ -5,6 +5,8 @@ Driver for stream `compiler` (C14): one op per line, one observation per line.
   layout                           -> ok | bad   (Compile.layoutOK: every item decodes at its final offset; hypothesis of
                                                   the byte/assembly simulation theorem, evaluated per program)
   offset <func>                    -> <decimal byte offset of the method> | none
+  params <func>                    -> <number of arguments the INITSLOT at the method's offset takes> (vs the debug info's
+                                      parameter count of the real compiler)
   run <func> <ret> <args…>         -> halt <v> | halt - | fault | stack:<n> | asm-byte-differ …
                                        (MiniVm byte machine on the MODEL's script; cross-checked with the
                                         assembly machine on the unassembled code)
@@ -183,6 +185,15 @@ def step (s : DState) (ws : List String) : DState × String :=
     match funcIndex s.prog f with
     | some i => match debugOffset s.code s.prog.length i with
       | some o => (s, toString o)
+      | none => (s, "none")
+    | none => (s, "none")
+  | ["params", f] =>
+    -- the number of arguments the bytecode of the method takes: the operand of the INITSLOT at its offset (0 if none)
+    match funcIndex s.prog f with
+    | some i => match labelOffset s.code i with
+      | some off => match Byte.decode (s.script.drop off) with
+        | some (.initSlot _ a, _) => (s, toString a)
+        | _ => (s, "0")
       | none => (s, "none")
     | none => (s, "none")
   | "run" :: f :: ret :: args =>
